@@ -188,6 +188,10 @@ func computeFHIRPathOfProtoPath(p protopath.Path) (string, error) {
 			if cof := fd.ContainingOneof(); cof != nil && cof.Name() == "choice" {
 				cappedName := strings.ToUpper(elementName[0:1]) + elementName[1:]
 				fhirpath[len(fhirpath)-1] += cappedName
+			} else if cof != nil && cof.Name() == "reference" && cfn == "google.fhir.r4.core.Reference" {
+				// Every member of the Reference.reference oneof (uri, fragment and
+				// the typed ids) is the one FHIR element Reference.reference.
+				fhirpath = append(fhirpath, "reference")
 			} else {
 				fhirpath = append(fhirpath, elementName)
 			}
